@@ -13,6 +13,7 @@ import (
 	"fmt"
 	"io"
 	"os"
+	"path/filepath"
 
 	"github.com/cloudwego/thriftgo/plugin"
 )
@@ -44,7 +45,26 @@ func main() {
 	if p := os.Getenv("C07_DUMP"); p != "" {
 		os.WriteFile(p, data, 0o644)
 	}
-	out, err := plugin.MarshalResponse(&plugin.Response{})
+	res := &plugin.Response{}
+	if rel := os.Getenv("C07_PATCH_FILE"); rel != "" {
+		// "nested insertion": the text put at `eof` declares an insertion point of its own (`helpers`) and
+		// mentions two the file already has; further patches target `helpers`, `bof` and `imports`. thriftgo
+		// replaces all points of a file in one pass, so inserted text is never scanned again.
+		if req, err := plugin.UnmarshalRequest(data); err == nil {
+			name := filepath.Join(req.OutputPath, rel)
+			mk := func(point, text string) *plugin.Generated {
+				n, p := name, point
+				return &plugin.Generated{Name: &n, InsertionPoint: &p, Content: text}
+			}
+			res.Contents = []*plugin.Generated{
+				mk("eof", "\n// section added by c07plugin: "+plugin.InsertionPoint("helpers")+" "+plugin.InsertionPoint("bof")+" "+plugin.InsertionPoint("imports")+"\n"),
+				mk("helpers", "/* helpers "+plugin.InsertionPoint("eof")+" */"),
+				mk("bof", "// top of file, see "+plugin.InsertionPoint("helpers")+"\n"),
+				mk("imports", "\n\t// no extra imports "+plugin.InsertionPoint("bof")+"\n"),
+			}
+		}
+	}
+	out, err := plugin.MarshalResponse(res)
 	if err != nil {
 		fmt.Fprintln(os.Stderr, "c07plugin: marshal:", err)
 		os.Exit(1)
